@@ -1,120 +1,239 @@
-namespace Asts
+import Asts.Model.Json
+namespace Asts.Codec
+open Asts
 
-inductive Json where
-  | null
-  | str (s : String)
-  | num (n : Int)
-  | bool (b : Bool)
-  | arr (l : List Json)
-  | obj (kvs : List (String × Json))
-  deriving Repr
+/-! A schema-indexed model of `encoding/json` for Go struct types, as far as `FromBuiltinStatefulSet`,
+    `ToBuiltinStatefulSet` and `ToBuiltinStetefulsetList` (client/apis/apps/v1/helper/hijack.go) depend on it:
+    `json.Marshal` of one Go type followed by `json.Unmarshal` into another.
 
-/-- Go types as far as encoding/json cares. `leaf` = a named Go type shared by both sides (opaque, assumed to round-trip). -/
+    * `GoTy` — what `encoding/json` sees of a Go type: JSON key and `omitempty` flag per struct field, pointers, slices,
+      the three primitive kinds, and *opaque leaves*: named struct types that are the very same Go type on both sides of
+      a conversion (`metav1.ObjectMeta`, `v1.PodTemplateSpec`, `metav1.Time`, …). A leaf value is represented by its own
+      JSON encoding and is assumed to survive `Unmarshal ∘ Marshal` (sampled by the `codec` engine, not proved).
+      `nullable` says that the zero value of the leaf marshals to `null` (`metav1.Time`).
+    * `GoVal` — Go values; a struct value is keyed by JSON key, so a value of a larger struct type can be read at a
+      smaller one.  Maps do not occur outside leaves in the StatefulSet types and are not modelled. -/
+
+inductive Prim where
+  | str
+  | int (bits : Nat)
+  | bool
+  deriving Repr, DecidableEq, Inhabited
+
 inductive GoTy where
-  | leaf (name : String)
+  | prim (p : Prim)
+  | leaf (name : String) (nullable : Bool)
   | ptr (t : GoTy)
   | slice (t : GoTy)
-  | struct (fields : List (String × Bool × GoTy))    -- json key, omitempty, type
+  | struct (fields : List (String × Bool × GoTy))    -- JSON key, omitempty, type
+  | unsupported (what : String)                      -- emitted by the extractor for a shape outside the model
+  deriving Repr, Inhabited
 
-/-- Go values; a leaf value is represented by its own JSON encoding. -/
 inductive GoVal where
-  | leaf (j : Json) (zero : Bool)
+  | str (s : String)
+  | int (n : Int)
+  | bool (b : Bool)
+  | leaf (j : Json)
   | nilPtr
   | ptr (v : GoVal)
-  | slice (l : Option (List GoVal))
-  | struct (fs : List GoVal)
+  | slice (l : Option (List GoVal))                  -- `none` = nil slice
+  | struct (fs : List (String × GoVal))
+  deriving Repr, Inhabited
+
+abbrev Fields := List (String × Bool × GoTy)
+
+def vlookup (k : String) : List (String × GoVal) → Option GoVal
+  | [] => none
+  | (k', v) :: rest => if k' = k then some v else vlookup k rest
+
+def jlookup (k : String) : List (String × Json) → Option Json
+  | [] => none
+  | (k', v) :: rest => if k' = k then some v else jlookup k rest
+
+def findField (k : String) : Fields → Option (Bool × GoTy)
+  | [] => none
+  | (k', o, t) :: rest => if k' = k then some (o, t) else findField k rest
+
+/-- `reflect`'s `isEmptyValue` as used by `omitempty`: false, 0, "", nil pointer, nil or empty slice; never a struct -/
+def isEmpty : GoVal → Bool
+  | .str s => s = ""
+  | .int n => n = 0
+  | .bool b => b = false
+  | .nilPtr => true
+  | .slice none => true
+  | .slice (some []) => true
+  | _ => false
 
 mutual
-def encode : GoVal → Json
-  | .leaf j _ => j
-  | .nilPtr => .null
-  | .ptr v => encode v
-  | .slice none => .null
-  | .slice (some l) => .arr (encodeList l)
-  | .struct fs => .obj (encodeFields fs 0)
-def encodeList : List GoVal → List Json
-  | [] => []
-  | v :: vs => encode v :: encodeList vs
-def encodeFields : List GoVal → Nat → List (String × Json)
+/-- `json.Marshal` -/
+def encode : GoTy → GoVal → Json
+  | .prim .str, .str s => .str s
+  | .prim (.int _), .int n => .num n
+  | .prim .bool, .bool b => .bool b
+  | .leaf _ _, .leaf j => j
+  | .ptr _, .nilPtr => .null
+  | .ptr t, .ptr v => encode t v
+  | .slice _, .slice none => .null
+  | .slice t, .slice (some l) => .arr (encodeList t l)
+  | .struct fs, .struct vs => .obj (encodeFields fs vs)
+  | _, _ => .null
+def encodeList : GoTy → List GoVal → List Json
+  | _, [] => []
+  | t, v :: vs => encode t v :: encodeList t vs
+def encodeFields : Fields → List (String × GoVal) → List (String × Json)
   | [], _ => []
-  | v :: vs, i => (toString i, encode v) :: encodeFields vs (i+1)
+  | (k, o, t) :: rest, vs =>
+    match vlookup k vs with
+    | some v => if o && isEmpty v then encodeFields rest vs else (k, encode t v) :: encodeFields rest vs
+    | none => encodeFields rest vs
 end
 
-end Asts
-
-namespace Asts
--- shape-directed decoder (no omitempty in this probe)
 mutual
+/-- the zero value of a type -/
+def zero : GoTy → GoVal
+  | .prim .str => .str ""
+  | .prim (.int _) => .int 0
+  | .prim .bool => .bool false
+  | .leaf _ _ => .leaf .null
+  | .ptr _ => .nilPtr
+  | .slice _ => .slice none
+  | .struct fs => .struct (zeroFields fs)
+  | .unsupported _ => .nilPtr
+def zeroFields : Fields → List (String × GoVal)
+  | [] => []
+  | (k, _, t) :: rest => (k, zero t) :: zeroFields rest
+end
+
+mutual
+/-- `json.Unmarshal` into a fresh value (unknown keys ignored, `null` leaves the zero value, a missing key too) -/
 def decode : GoTy → Json → GoVal
-  | .leaf _, j => .leaf j false
-  | .ptr _, .null => .nilPtr
-  | .ptr t, j => .ptr (decode t j)
-  | .slice _, .null => .slice none
-  | .slice t, .arr l => .slice (some (decodeList t l))
-  | .slice _, _ => .slice none
-  | .struct fs, .obj kvs => .struct (decodeFields fs kvs)
-  | .struct fs, _ => .struct (decodeFields fs [])
+  | .prim .str, j => .str (match j with | .str s => s | _ => "")
+  | .prim (.int _), j => .int (match j with | .num n => n | _ => 0)
+  | .prim .bool, j => .bool (match j with | .bool b => b | _ => false)
+  | .leaf _ _, j => .leaf j
+  | .ptr t, j => (match j with | .null => .nilPtr | _ => .ptr (decode t j))
+  | .slice t, j => (match j with | .arr l => .slice (some (decodeList t l)) | _ => .slice none)
+  | .struct fs, j => .struct (decodeFields fs (match j with | .obj kvs => kvs | _ => []))
+  | .unsupported _, _ => .nilPtr
 def decodeList : GoTy → List Json → List GoVal
   | _, [] => []
   | t, j :: js => decode t j :: decodeList t js
-def decodeFields : List (String × Bool × GoTy) → List (String × Json) → List GoVal
+def decodeFields : Fields → List (String × Json) → List (String × GoVal)
   | [], _ => []
-  | (_, _, t) :: fs, (_, j) :: kvs => decode t j :: decodeFields fs kvs
-  | (_, _, t) :: fs, [] => decode t .null :: decodeFields fs []
+  | (k, _, t) :: rest, kvs =>
+    (k, match jlookup k kvs with | some j => decode t j | none => zero t) :: decodeFields rest kvs
 end
 
--- well-typedness
+/-- what `Unmarshal` accepts without an error, for the JSON the other side's `Marshal` can produce -/
+def primAccepts : Prim → Json → Bool
+  | _, .null => true
+  | .str, .str _ => true
+  | .int bits, .num n => decide (-(2 : Int) ^ (bits - 1) ≤ n) && decide (n < (2 : Int) ^ (bits - 1))
+  | .bool, .bool _ => true
+  | _, _ => false
+
 mutual
-def HasTy : GoTy → GoVal → Prop
-  | .leaf _, .leaf j z => j ≠ .null ∧ z = false
-  | .ptr _, .nilPtr => True
-  | .ptr t, .ptr v => HasTy t v ∧ encode v ≠ .null
-  | .slice _, .slice none => True
-  | .slice t, .slice (some l) => HasTyList t l
-  | .struct fs, .struct vs => HasTyFields fs vs
-  | _, _ => False
-def HasTyList : GoTy → List GoVal → Prop
-  | _, [] => True
-  | t, v :: vs => HasTy t v ∧ HasTyList t vs
-def HasTyFields : List (String × Bool × GoTy) → List GoVal → Prop
-  | [], [] => True
-  | (_, _, t) :: fs, v :: vs => HasTy t v ∧ HasTyFields fs vs
-  | _, _ => False
+def accepts : GoTy → Json → Bool
+  | .prim p, j => primAccepts p j
+  | .leaf _ _, _ => true
+  | .ptr t, j => (match j with | .null => true | _ => accepts t j)
+  | .slice t, j => (match j with | .null => true | .arr l => acceptsList t l | _ => false)
+  | .struct fs, j => (match j with | .null => true | .obj kvs => acceptsFields fs kvs | _ => false)
+  | .unsupported _, _ => false
+def acceptsList : GoTy → List Json → Bool
+  | _, [] => true
+  | t, j :: js => accepts t j && acceptsList t js
+def acceptsFields : Fields → List (String × Json) → Bool
+  | [], _ => true
+  | (k, _, t) :: rest, kvs =>
+    (match jlookup k kvs with | some j => accepts t j | none => true) && acceptsFields rest kvs
+end
+
+/-! ### schemas: well-formedness and compatibility (both decidable, evaluated on the extracted schemas) -/
+
+def keys (fs : Fields) : List String := fs.map (·.1)
+
+/-- a type whose values never marshal to `null` (what may sit under a pointer) -/
+def nonNull : GoTy → Bool
+  | .prim _ => true
+  | .leaf _ nullable => !nullable
+  | .struct _ => true
+  | _ => false
+
+mutual
+/-- keys of every struct are distinct, pointers point at non-null types, nothing unsupported -/
+def wf : GoTy → Bool
+  | .prim _ => true
+  | .leaf _ _ => true
+  | .ptr t => nonNull t && wf t
+  | .slice t => wf t
+  | .struct fs => wfFields fs
+  | .unsupported _ => false
+def wfFields : Fields → Bool
+  | [] => true
+  | (k, _, t) :: rest => !(keys rest).contains k && wf t && wfFields rest
 end
 
 mutual
-theorem decode_encode : ∀ (t : GoTy) (v : GoVal), HasTy t v → decode t (encode v) = v
-  | .leaf _, .leaf j z, h => by
-      simp only [HasTy] at h; simp [encode, decode, h.2]
-  | .ptr _, .nilPtr, _ => by simp [encode, decode]
-  | .ptr t, .ptr v, h => by
-      simp only [HasTy] at h
-      have ih := decode_encode t v h.1
-      simp only [encode]
-      cases he : encode v <;> simp_all [decode]
-  | .slice _, .slice none, _ => by simp [encode, decode]
-  | .slice t, .slice (some l), h => by
-      simp only [HasTy] at h
-      simp [encode, decode, decodeList_encodeList t l h]
-  | .struct fs, .struct vs, h => by
-      simp only [HasTy] at h
-      simp [encode, decode, decodeFields_encodeFields fs vs 0 h]
-  | .leaf _, .nilPtr, h | .leaf _, .ptr _, h | .leaf _, .slice _, h | .leaf _, .struct _, h
-  | .ptr _, .leaf _ _, h | .ptr _, .slice _, h | .ptr _, .struct _, h
-  | .slice _, .leaf _ _, h | .slice _, .nilPtr, h | .slice _, .ptr _, h | .slice _, .struct _, h
-  | .struct _, .leaf _ _, h | .struct _, .nilPtr, h | .struct _, .ptr _, h | .struct _, .slice _, h => by
-      simp [HasTy] at h
-theorem decodeList_encodeList : ∀ (t : GoTy) (l : List GoVal), HasTyList t l → decodeList t (encodeList l) = l
-  | _, [], _ => by simp [encodeList, decodeList]
-  | t, v :: vs, h => by
-      simp only [HasTyList] at h
-      simp [encodeList, decodeList, decode_encode t v h.1, decodeList_encodeList t vs h.2]
-theorem decodeFields_encodeFields : ∀ (fs : List (String × Bool × GoTy)) (vs : List GoVal) (i : Nat),
-    HasTyFields fs vs → decodeFields fs (encodeFields vs i) = vs
-  | [], [], _, _ => by simp [encodeFields, decodeFields]
-  | (_, _, t) :: fs, v :: vs, i, h => by
-      simp only [HasTyFields] at h
-      simp [encodeFields, decodeFields, decode_encode t v h.1, decodeFields_encodeFields fs vs (i+1) h.2]
-  | [], _ :: _, _, h | _ :: _, [], _, h => by simp [HasTyFields] at h
+/-- every field of `a` occurs in `b` with the same key, the same `omitempty` flag and a compatible type; primitive kinds
+    and leaves must be identical -/
+def compat : GoTy → GoTy → Bool
+  | .prim p, b => (match b with | .prim q => p == q | _ => false)
+  | .leaf n z, b => (match b with | .leaf m y => n == m && z == y | _ => false)
+  | .ptr t, b => (match b with | .ptr u => compat t u | _ => false)
+  | .slice t, b => (match b with | .slice u => compat t u | _ => false)
+  | .struct fs, b => (match b with | .struct gs => compatFields fs gs | _ => false)
+  | .unsupported _, _ => false
+def compatFields : Fields → Fields → Bool
+  | [], _ => true
+  | (k, o, t) :: rest, gs =>
+    (match findField k gs with
+     | some (o', u) => o == o' && compat t u
+     | none => false) && compatFields rest gs
 end
-end Asts
+
+mutual
+/-- `Unmarshal` at `d` will accept whatever `Marshal` at `e` writes: every field of `d` that `e` also has (same key) has an
+    acceptable type there; fields only one side has are ignored (decoder) or left zero -/
+def accCompat : GoTy → GoTy → Bool
+  | .prim p, e => (match e with | .prim q => p == q | _ => false)
+  | .leaf n z, e => (match e with | .leaf m y => n == m && z == y | _ => false)
+  | .ptr t, e => (match e with | .ptr u => accCompat t u | _ => false)
+  | .slice t, e => (match e with | .slice u => accCompat t u | _ => false)
+  | .struct fs, e => (match e with | .struct gs => accCompatFields fs gs | _ => false)
+  | .unsupported _, _ => false
+def accCompatFields : Fields → Fields → Bool
+  | [], _ => true
+  | (k, _, t) :: rest, gs =>
+    (match findField k gs with
+     | some (_, u) => accCompat t u
+     | none => !(keys gs).contains k) && accCompatFields rest gs
+end
+
+/-- the top-level field of a struct value -/
+def topField (k : String) : GoVal → Option GoVal
+  | .struct fs => vlookup k fs
+  | _ => none
+
+/-- replace a top-level field of a struct value (`newSet.TypeMeta.APIVersion = …`) -/
+def setField (k : String) (x : GoVal) : GoVal → GoVal
+  | .struct fs => .struct (fs.map fun e => if e.1 = k then (k, x) else e)
+  | v => v
+
+/-- `FromBuiltinStatefulSet` / `ToBuiltinStatefulSet`: marshal at the source type, unmarshal at the target type, stamp
+    the target apiVersion -/
+def convert (src dst : GoTy) (apiVersion : String) (v : GoVal) : GoVal :=
+  setField "apiVersion" (.str apiVersion) (decode dst (encode src v))
+
+/-- `ToBuiltinStetefulsetList`: the same for a list, then the apiVersion of every item is stamped as well -/
+def convertList (src dst : GoTy) (apiVersion : String) (l : GoVal) : GoVal :=
+  match setField "apiVersion" (.str apiVersion) (decode dst (encode src l)) with
+  | .struct fs => .struct (fs.map fun e =>
+      if e.1 = "items" then
+        (e.1, match e.2 with
+              | .slice (some items) => .slice (some (items.map (setField "apiVersion" (.str apiVersion))))
+              | v => v)
+      else e)
+  | v => v
+
+end Asts.Codec
